@@ -20,11 +20,15 @@ type replyStats struct {
 	f                        feat
 	withErr, emptyErr, noErr int
 	nonZero, viaCopy         int
+	untypedNumbers           int
+	percentErr               int
+	sweepErr                 *string
 	sig                      []any
 	samples                  []any
 }
 
 // replyOne runs one MarshalReply -> (Copy) -> UnmarshalReply round trip for a result of type R.
+// When st.sweepErr is set, it is taken (once) as the handler error's text.
 func replyOne[R any](e *vlib.Env, res *vlib.Result, st *replyStats, result R, strs ...string) {
 	r := e.R
 	var zero R
@@ -40,7 +44,17 @@ func replyOne[R any](e *vlib.Env, res *vlib.Result, st *replyStats, result R, st
 	}
 	var handleErr error
 	errDesc := "nil"
-	switch r.Intn(6) {
+	kind := r.Intn(6)
+	if st.sweepErr != nil {
+		kind = 6 + r.Intn(3)
+	}
+	switch kind {
+	case 6:
+		handleErr = errors.New(*st.sweepErr)
+	case 7:
+		handleErr = handlerError{*st.sweepErr}
+	case 8:
+		handleErr = fmt.Errorf("%w", errors.New(*st.sweepErr))
 	case 0, 1:
 		st.noErr++
 	case 2:
@@ -53,9 +67,13 @@ func replyOne[R any](e *vlib.Env, res *vlib.Result, st *replyStats, result R, st
 	default:
 		handleErr = errors.New(genStr(r))
 	}
+	st.sweepErr = nil
 	if handleErr != nil {
 		st.withErr++
 		st.f.addStr(handleErr.Error())
+		if hasPrintfVerb(handleErr.Error()) {
+			st.percentErr++
+		}
 		errDesc = fmt.Sprintf("%T(%s)", handleErr, showStr(handleErr.Error()))
 	}
 	st.sig = append(st.sig, desc, errDesc)
@@ -95,7 +113,7 @@ func replyOne[R any](e *vlib.Env, res *vlib.Result, st *replyStats, result R, st
 	}
 	res.Events += 2
 	if !reflect.DeepEqual(reply.HandlerResult, result) {
-		fail("reply-result", "result came back as %s (payload %s)", clip(fmt.Sprintf("%+v", reply.HandlerResult), 600), showBytes(msg.Payload))
+		fail("reply-result", "%s; result came back as %s (payload %s)", firstDiff(reflect.ValueOf(&result), reflect.ValueOf(&reply.HandlerResult), "result"), clip(fmt.Sprintf("%+v", reply.HandlerResult), 600), showBytes(msg.Payload))
 		return
 	}
 	switch {
@@ -115,8 +133,79 @@ func runReply(e *vlib.Env, res *vlib.Result) {
 	const nReplies = 64
 	st := &replyStats{}
 	r := e.R
+	// sweep slots: 0..15 error text of every 4th reply, 16..23 a string result (of every 8th reply)
+	sw := newSweeper(e, nReplies/4+nReplies/8)
 	for i := 0; i < nReplies && !res.Failed(); i++ {
-		switch r.Intn(11) {
+		if i%4 == 0 {
+			t := sw.at(i / 4)
+			st.sweepErr = &t
+		}
+		if i%8 == 4 {
+			t := sw.at(nReplies/4 + i/8)
+			if r.Bool() {
+				replyOne(e, res, st, t, t)
+			} else {
+				replyOne[any](e, res, st, map[string]any{t: []any{t}}, t)
+			}
+			continue
+		}
+		switch r.Intn(16) {
+		case 11:
+			// results with untyped slots: the reply marshaler decodes into Result with encoding/json, so numbers in
+			// interface{} slots must come back as float64 (values are fixed points of encoding/json, see untyped.go)
+			var strs []string
+			var us untypedStats
+			l := genLoose(r, 1, &strs, &us)
+			selfCheckJSON(l, func() any { return new(EvLoose) })
+			st.untypedNumbers += us.numbers
+			if r.Bool() {
+				replyOne(e, res, st, *l, strs...)
+			} else {
+				replyOne(e, res, st, l, strs...)
+			}
+		case 12:
+			var strs []string
+			var us untypedStats
+			var a any = genNumTree(r, 2, &strs)
+			us.walk(a, 0)
+			selfCheckJSON(&a, func() any { return new(any) })
+			st.untypedNumbers += us.numbers
+			replyOne[any](e, res, st, a, strs...)
+		case 13:
+			var strs []string
+			var us untypedStats
+			var m map[string]any
+			if r.Chance(0.9) {
+				m = genTreeMap(r, 2, &strs)
+				k := genStr(r)
+				strs = append(strs, k)
+				m[k] = genNumTree(r, 1, &strs)
+				us.walk(m, 0)
+			}
+			selfCheckJSON(&m, func() any { return new(map[string]any) })
+			st.untypedNumbers += us.numbers
+			replyOne(e, res, st, m, strs...)
+		case 14:
+			var strs []string
+			var us untypedStats
+			var l []any
+			if r.Chance(0.9) {
+				l = []any{}
+				for j := r.Intn(5); j > 0; j-- {
+					l = append(l, genNumTree(r, 1, &strs))
+				}
+				us.walk(l, 0)
+			}
+			selfCheckJSON(&l, func() any { return new([]any) })
+			st.untypedNumbers += us.numbers
+			replyOne(e, res, st, l, strs...)
+		case 15:
+			var strs []string
+			var us untypedStats
+			s := genShapes(r, &strs, &us)
+			selfCheckJSON(s, func() any { return new(EvShapes) })
+			st.untypedNumbers += us.numbers
+			replyOne(e, res, st, *s, strs...)
 		case 0:
 			s := genStr(r)
 			replyOne(e, res, st, s, s)
@@ -136,7 +225,7 @@ func runReply(e *vlib.Env, res *vlib.Result) {
 			}
 		case 5:
 			for {
-				v := genJSONVal(r)
+				v := genTypedJSONVal(r)
 				if n, ok := v.v.(*EvNested); ok {
 					replyOne(e, res, st, *n, v.strs...)
 					break
@@ -171,6 +260,10 @@ func runReply(e *vlib.Env, res *vlib.Result) {
 	res.Count("replies_with_empty_error_text", st.emptyErr)
 	res.Count("replies_without_error", st.noErr)
 	res.Count("unmarshal_from_copy", st.viaCopy)
+	res.Count("error_texts_with_percent", st.percentErr)
+	res.Count("corpus_sweep_strings", sw.used)
+	res.Count("untyped_slot_numbers", st.untypedNumbers)
+	st.f.report(res)
 	res.NonTrivial = res.Failed() || (st.withErr > 0 && st.noErr > 0 && st.nonZero > 0 && st.f.multibyte && st.f.control)
 	res.Sig = vlib.Sig("reply", st.sig)
 	if !res.Failed() {
